@@ -853,6 +853,12 @@ class C06(Family):
             vals.append(F(s["dt"][1:]))
         if not all(is_dyadic(v) for v in vals):
             return "T"
+        ts = case.get("tscale")
+        if ts and ts["kind"] != "pow2":
+            # time units scaled by 1e6, 1/3, ...: the grid values may all be integers (hence dyadic) while
+            # the grid *spacing* is no power of two, so the slopes / weights of the input interpolation are
+            # rounded (false alarm of thorough seed 21: dt = 1e5, T = [0, 4e5], one ulp in a state)
+            return "T"
         inc = self.inc_of(case)
         if inc.denominator != 1 or inc < 1 or (int(inc) & (int(inc) - 1)) != 0:
             return "T"
